@@ -38,6 +38,7 @@ type Run struct {
 	rule        string
 	exhaustive  bool
 	capNotes    []string
+	harnessErrs []string
 	assumptions []string
 	violations  map[string]*violation // by key
 	known       map[string]string     // key -> description (from KNOWN_FINDINGS.txt)
@@ -164,6 +165,29 @@ func (r *Run) Capped(note string) {
 	r.exhaustive = false
 	r.capNotes = append(r.capNotes, note)
 	r.mu.Unlock()
+}
+
+// Phase runs one part of a harness. If it ends in a panic whose value marks
+// harness nondeterminism (mc.Divergence: the code under test did not follow a
+// replayed prefix, so something the harness does not own influenced it), the
+// phase is abandoned and recorded; the other phases still run. Finish then
+// prints what the completed phases found and ends as a harness error (exit 2)
+// unless a violation was found (exit 1): an abandoned phase is never "held".
+func (r *Run) Phase(name string, f func()) {
+	defer func() {
+		if p := recover(); p != nil {
+			if _, ok := p.(interface{ HarnessNondeterminism() }); ok {
+				r.mu.Lock()
+				r.harnessErrs = append(r.harnessErrs, fmt.Sprintf("phase %s abandoned: %v", name, p))
+				r.exhaustive = false
+				r.capNotes = append(r.capNotes, fmt.Sprintf("phase %s abandoned: %v", name, p))
+				r.mu.Unlock()
+				return
+			}
+			panic(p)
+		}
+	}()
+	f()
 }
 
 // Violation records a property violation. key is a stable class name (input
@@ -446,8 +470,14 @@ func (r *Run) Finish() {
 	}
 	fmt.Printf("%s %s: evaluations=%d distinct_nontrivial=%d outcomes=%d exhaustive=%v known=%d violations=%d wall=%.1fs\n",
 		r.ID, r.Tier, r.evaluations, len(r.distinct), len(oc), r.exhaustive, len(keys), len(vl), time.Since(r.start).Seconds())
+	for _, h := range r.harnessErrs {
+		fmt.Println("HARNESS-ERROR:", h)
+	}
 	if len(vl) > 0 {
 		os.Exit(1)
+	}
+	if len(r.harnessErrs) > 0 {
+		os.Exit(2)
 	}
 	os.Exit(0)
 }
